@@ -70,6 +70,29 @@ PROPS["C15"] = {
     "assumptions": ["the plumbing from TuneOk to channel table, frame splitter and heartbeat timers is "
                     "checked by C10 / C02 / C17 and by the end-to-end driver"],
 }
+PROPS["C06"] = {
+    "check_mods": ["C06"],
+    "model_out": "model_out",
+    "drivers": [{"name": "c06", "n_quick": 1500, "n_thorough": 40000}],
+    "rule": "streams of real frames encoded by amq-protocol (heartbeat, method frames of several classes, "
+            "content headers with random 64-bit sizes, bodies 0..60 bytes and around / beyond the 4096-byte "
+            "read quantum): every single cut position of 3-frame streams (every pair of cuts in thorough), "
+            "byte-at-a-time delivery, random cuts incl. cuts directed at frame boundaries and at header "
+            "bytes 6/7/8, would-block after a cut with p=0.6, ending in would-block / EOF / reset; "
+            "malformed variants (bad type, bad end byte, size field +-1, unparsable payload, garbage "
+            "inserted, truncated stream). non-trivial = at least one frame handed on and a script of >= 3 "
+            "items; distinct = distinct (script, observations).",
+    "explanation": "C06_episode / C06_malformed / C06_eof / C06_terminates: for every script of reads "
+                   "(any chunk sizes, would-block anywhere) the frames handed on are exactly the greedy "
+                   "split of the bytes delivered so far. The real FrameBuffer is run over a scripted Read; "
+                   "per episode the frames handed on (index, length, adler32 of the re-encoded frame) and "
+                   "the result must equal the model's and the oracle computed from the whole stream and "
+                   "the cut points only.",
+    "trusted_base": ["amq-protocol's parse_frame (payload parser) enters the model as the oracle "
+                     "'the i-th complete frame parses'; input_buffer's BytesMut handling (chunks <= "
+                     "MIN_READ are accepted whole: measured as truncated_reads = 0)"],
+    "assumptions": ["a read returns at most MIN_READ bytes in the correspondence; the theorems allow any size"],
+}
 
 # properties not claimed, with the reason (kept current)
 NOT_APPLICABLE = {}
